@@ -42,6 +42,6 @@ class QuaToSM(ConvertBase):
         sms.background = qua.background_file
         sms.sample_start = qua.song_preview_time
         sms.sample_length = 10
-        sms.offset = qua.stack().offset.min()
+        sms.offset = qua.bpms.first_offset()
 
         return sms
